@@ -420,14 +420,6 @@ pub fn xzblk_header_f20_p3() {
     block_header_unit::<32, 3>()
 }
 
-//@ harness props=C03,C06,C18,C07 tier=quick unwind=8 unwindset=default_read_exact:4,flush_zero_padding:10,block_header_unit:10 mem_gb=6 timeout=600 opt_covers=bh_ok,unknown_filter_rejected,nonzero_padding_rejected
-//@ bound: read_block_header directly: flags 0x01 (concrete layout), 3 padding bytes; size values, filter id (<0x80), property byte and padding bytes symbolic
-#[cfg_attr(kani, kani::proof)]
-#[cfg_attr(kani, kani::stub(std::fmt::format, crate::verif_common::stub_format))]
-#[cfg_attr(kani, kani::stub(std::io::Error::is_interrupted, crate::verif_common::stub_not_interrupted))]
-pub fn xzblk_header_f01_p3() {
-    block_header_unit::<1, 3>()
-}
 
 //@ harness props=C03,C06,C07 tier=quick unwind=10 unwindset=default_read_exact:4,update_table:6 mem_gb=12 timeout=900 opt_covers=index_crc_rejected
 //@ bound: check_index directly with one record (symbolic sizes < 256): count / unpadded / uncompressed bytes (< 0x80) symbolic, CRC32 recomputed
@@ -612,4 +604,170 @@ pub fn xzblk_read_block_hs3_dev3() {
 #[cfg_attr(kani, kani::stub(crate::decode::lzbuffer::LzAccumBuffer::from_stream, crate::decode::lzbuffer::verif_h::accum_from_stream_with_capacity))]
 pub fn xzblk_read_block_hs64_dev0() {
     read_block_unit::<64, 0>()
+}
+
+// ---------------------------------------------------------------------------------------
+// read_block with the header PARSER replaced by its contract (it is decided on its own in
+// xzblk_header_*): the stub drains the header bytes through the real BufReader / CrcDigestRead /
+// Take nesting (so the header CRC is computed by the real code over the real bytes) and returns
+// the fields the harness scripted through two atomics. Everything else in read_block is real:
+// header-size arithmetic, header CRC comparison, LZMA2 payload decode, compressed / uncompressed
+// size comparisons, block padding, check call, output write, index record.
+// ---------------------------------------------------------------------------------------
+use std::sync::atomic::{AtomicU64, Ordering};
+pub static BH_PACKED: AtomicU64 = AtomicU64::new(u64::MAX);
+pub static BH_UNPACKED: AtomicU64 = AtomicU64::new(u64::MAX);
+
+pub fn scripted_block_header<R: io::BufRead>(input: &mut R, _header_size: u64) -> error::Result<BlockHeader> {
+    // drain: at most two refills for the sizes used here
+    let mut rounds = 0;
+    while rounds < 3 {
+        let n = match input.fill_buf() {
+            Ok(b) => b.len(),
+            Err(e) => return Err(error::Error::IoError(e)),
+        };
+        if n == 0 {
+            break;
+        }
+        input.consume(n);
+        rounds += 1;
+    }
+    let p = BH_PACKED.load(Ordering::Relaxed);
+    let u = BH_UNPACKED.load(Ordering::Relaxed);
+    let mut filters: Vec<Filter> = Vec::with_capacity(1);
+    let mut props: Vec<u8> = Vec::with_capacity(1);
+    props.push(0x16);
+    filters.push(Filter { filter_id: FilterId::Lzma2, props });
+    Ok(BlockHeader {
+        filters,
+        packed_size: if p == u64::MAX { None } else { Some(p) },
+        unpacked_size: if u == u64::MAX { None } else { Some(u) },
+    })
+}
+
+/// HS: header size byte. Symbolic: declared compressed / uncompressed sizes (or absent), the
+/// header CRC field, the block padding bytes, the two payload bytes, check = None or CRC32 field.
+fn read_block_fields<const HS: usize, const CHECK: u8>() {
+    let mut t = Tape::<48>::new();
+    let d0 = t.u8();
+    let d1 = t.u8();
+    let packed = t.u64();
+    let unpacked = t.u64();
+    let crc_field = t.u32();
+    let padb = [t.u8(), t.u8(), t.u8()];
+    let chk = [t.u8(), t.u8(), t.u8(), t.u8()];
+    BH_PACKED.store(packed, Ordering::Relaxed);
+    BH_UNPACKED.store(unpacked, Ordering::Relaxed);
+    let hlen = HS * 4;
+    let mut f = [0u8; 300];
+    f[0] = HS as u8;
+    f[1] = 0x00;
+    f[2] = 0x21;
+    f[3] = 0x01;
+    f[4] = 0x16;
+    let want_crc = ref_crc32(&f[0..hlen]);
+    let c = crc_field.to_le_bytes();
+    f[hlen] = c[0];
+    f[hlen + 1] = c[1];
+    f[hlen + 2] = c[2];
+    f[hlen + 3] = c[3];
+    let p = hlen + 4;
+    f[p] = 1;
+    f[p + 1] = 0;
+    f[p + 2] = 1;
+    f[p + 3] = d0;
+    f[p + 4] = d1;
+    f[p + 5] = 0;
+    let real_packed = 6u64;
+    let unpadded_wo_check = hlen + 10;
+    let pad = (4 - unpadded_wo_check % 4) % 4;
+    let mut k = 0;
+    while k < pad {
+        f[p + 6 + k] = padb[k];
+        k += 1;
+    }
+    let q = p + 6 + pad;
+    let check_len = if CHECK == 1 { 4 } else { 0 };
+    if CHECK == 1 {
+        f[q] = chk[0];
+        f[q + 1] = chk[1];
+        f[q + 2] = chk[2];
+        f[q + 3] = chk[3];
+    }
+    let total = q + check_len;
+    f[total] = 0xEE;
+    let mut rd = ArrReader::<300>::new(f, total + 1);
+    let mut sink = RecSink::<4>::new();
+    let mut records: Vec<Record> = Vec::with_capacity(2);
+    let (ok, counted) = {
+        let mut ci = util::CountBufRead::new(&mut rd);
+        let hb = ci.read_u8();
+        forget(hb);
+        let r = read_block(&mut ci, &mut sink, if CHECK == 1 { CheckMethod::Crc32 } else { CheckMethod::None }, &mut records, HS as u8);
+        let ok = r.is_ok();
+        forget(r);
+        (ok, ci.count())
+    };
+    let mut pad_zero = true;
+    let mut k2 = 0;
+    while k2 < pad {
+        if padb[k2] != 0 {
+            pad_zero = false;
+        }
+        k2 += 1;
+    }
+    let check_ok = CHECK != 1 || u32::from_le_bytes(chk) == ref_crc32(&[d0, d1]);
+    let canon = crc_field == want_crc
+        && (packed == u64::MAX || packed == real_packed)
+        && (unpacked == u64::MAX || unpacked == 2)
+        && pad_zero
+        && check_ok;
+    vassert!(ok == canon, "read_block: accepted iff header CRC32, declared compressed and uncompressed sizes, zero block padding and the block check all agree with the decoded data");
+    if ok {
+        vassert!(sink.len == 2 && sink.buf[0] == d0 && sink.buf[1] == d1, "read_block: the block's content is written to the output");
+        vassert!(records.len() == 1 && records[0].unpadded_size == (unpadded_wo_check + check_len) as u64 && records[0].unpacked_size == 2, "read_block: index record = unpadded block size (header + data + check, without padding) and uncompressed size");
+        vassert!(counted == total && rd.pos == total, "read_block: consumes header, payload, padding and check, nothing more");
+    } else {
+        vassert!(sink.len == 0, "read_block: nothing is written for a rejected block");
+    }
+    vcover!(ok, "block_ok");
+    vcover!(!ok && crc_field == want_crc && pad_zero && check_ok, "declared_size_mismatch_rejected");
+    vcover!(!ok && !pad_zero && crc_field == want_crc, "nonzero_block_padding_rejected");
+    forget(records);
+}
+
+//@ harness props=C03,C06,C07 tier=quick unwind=6 unwindset=update_table:300,ref_crc32.0:10,ref_crc32.1:300,default_read_exact:4,decompress:4,scripted_block_header:5,read_block_fields:5,spec_fill:8200 mem_gb=12 timeout=900 native=no
+//@ bound: read_block with the header parser replaced by its contract: 12-byte header, no check; symbolic header CRC field, declared sizes (or absent), block padding bytes, 2 payload bytes (one uncompressed LZMA2 chunk)
+#[cfg_attr(kani, kani::proof)]
+#[cfg_attr(kani, kani::stub(std::fmt::format, crate::verif_common::stub_format))]
+#[cfg_attr(kani, kani::stub(std::io::Error::is_interrupted, crate::verif_common::stub_not_interrupted))]
+#[cfg_attr(kani, kani::stub(crate::decode::xz::read_block_header, crate::decode::xz::verif_h::scripted_block_header))]
+#[cfg_attr(kani, kani::stub(crate::decode::lzma::DecoderState::new, crate::decode::stream::verif_h::new_scripted_lit))]
+#[cfg_attr(kani, kani::stub(crate::decode::lzbuffer::LzAccumBuffer::from_stream, crate::decode::lzbuffer::verif_h::accum_from_stream_with_capacity))]
+pub fn xzblk_read_block_fields_hs3_chk0() {
+    read_block_fields::<3, 0>()
+}
+
+//@ harness props=C03,C06,C07 tier=quick unwind=6 unwindset=update_table:300,ref_crc32.0:10,ref_crc32.1:300,default_read_exact:4,decompress:4,scripted_block_header:5,read_block_fields:5,spec_fill:8200 mem_gb=12 timeout=900 native=no
+//@ bound: read_block with the header parser replaced by its contract: 12-byte header, CRC32 check field symbolic; symbolic header CRC field, declared sizes (or absent), block padding bytes, 2 payload bytes (one uncompressed LZMA2 chunk)
+#[cfg_attr(kani, kani::proof)]
+#[cfg_attr(kani, kani::stub(std::fmt::format, crate::verif_common::stub_format))]
+#[cfg_attr(kani, kani::stub(std::io::Error::is_interrupted, crate::verif_common::stub_not_interrupted))]
+#[cfg_attr(kani, kani::stub(crate::decode::xz::read_block_header, crate::decode::xz::verif_h::scripted_block_header))]
+#[cfg_attr(kani, kani::stub(crate::decode::lzma::DecoderState::new, crate::decode::stream::verif_h::new_scripted_lit))]
+#[cfg_attr(kani, kani::stub(crate::decode::lzbuffer::LzAccumBuffer::from_stream, crate::decode::lzbuffer::verif_h::accum_from_stream_with_capacity))]
+pub fn xzblk_read_block_fields_hs3_chk1() {
+    read_block_fields::<3, 1>()
+}
+
+//@ harness props=C03,C06,C07 tier=quick unwind=6 unwindset=update_table:300,ref_crc32.0:10,ref_crc32.1:300,default_read_exact:4,decompress:4,scripted_block_header:5,read_block_fields:5,spec_fill:8200 mem_gb=12 timeout=900 native=no
+//@ bound: read_block with the header parser replaced by its contract: 256-byte header (size byte 0x40), no check; symbolic header CRC field, declared sizes (or absent), block padding bytes, 2 payload bytes (one uncompressed LZMA2 chunk)
+#[cfg_attr(kani, kani::proof)]
+#[cfg_attr(kani, kani::stub(std::fmt::format, crate::verif_common::stub_format))]
+#[cfg_attr(kani, kani::stub(std::io::Error::is_interrupted, crate::verif_common::stub_not_interrupted))]
+#[cfg_attr(kani, kani::stub(crate::decode::xz::read_block_header, crate::decode::xz::verif_h::scripted_block_header))]
+#[cfg_attr(kani, kani::stub(crate::decode::lzma::DecoderState::new, crate::decode::stream::verif_h::new_scripted_lit))]
+#[cfg_attr(kani, kani::stub(crate::decode::lzbuffer::LzAccumBuffer::from_stream, crate::decode::lzbuffer::verif_h::accum_from_stream_with_capacity))]
+pub fn xzblk_read_block_fields_hs64_chk0() {
+    read_block_fields::<64, 0>()
 }
